@@ -153,6 +153,10 @@ pub fn gen_inst(r: &mut Rng, max_c: usize, max_p: usize, rooms_mode: usize) -> I
         }
         courses[cstar].max = courses[cstar].max.max(2);
         courses[cstar].min = courses[cstar].min.min(courses[cstar].max);
+        if r.chance(1, 2) {
+            // a factor above 1, so that people inside and outside the factor make a difference
+            courses[cstar].fbits = (*r.pick(&[1.5f32, 2.0, 2.5, 1.25])).to_bits();
+        }
         for p in 0..np {
             if courses.iter().any(|c| c.instr.contains(&p)) {
                 continue;
@@ -167,10 +171,12 @@ pub fn gen_inst(r: &mut Rng, max_c: usize, max_p: usize, rooms_mode: usize) -> I
         let t_full = courses.iter().map(|c| size(c, c.max + c.instr.len())).max().unwrap_or(0);
         let t_noinstr = courses.iter().map(|c| size(c, c.max)).max().unwrap_or(0);
         let t_heads = courses.iter().map(|c| c.max + c.instr.len()).max().unwrap_or(0);
-        let b = match r.below(4) {
+        let t_outside = courses.iter().map(|c| size(c, c.max) + c.instr.len()).max().unwrap_or(0);
+        let b = match r.below(5) {
             0 => t_full.saturating_sub(1),
             1 => t_noinstr,
             2 => t_heads,
+            3 => t_outside,
             _ => t_full.saturating_sub(2),
         };
         let n = nc + r.range(0, 2);
@@ -484,6 +490,49 @@ pub fn run(
                 let o = run_impl(&inst, &nd);
                 *hist.entry(String::from("random_nodes")).or_insert(0) += 1;
                 cases.push((inst.clone(), nd, o));
+            }
+            // a directed instance + node: m participants choose ONLY course c, c is shrunk (as the room stage does) to fewer than m places, another
+            // course d keeps free places, nothing is enforced or cancelled and no course is full by its static maximum: the overflow can only sit
+            // in a course it did not choose
+            if inst.rooms.is_some() && inst.courses.len() >= 2 && r.chance(1, 3) {
+                let nc = inst.courses.len();
+                let c = r.below(nc);
+                let d = (c + 1 + r.below(nc - 1)) % nc;
+                let mut i2 = inst.clone();
+                i2.courses[c].max = i2.courses[c].max.max(3);
+                i2.courses[d].max = i2.courses[d].max.max(3);
+                let free: Vec<usize> = (0..i2.parts.len()).filter(|p| !i2.courses.iter().any(|cc| cc.instr.contains(p))).collect();
+                if free.len() >= 2 {
+                    let m = free.len().min(i2.courses[c].max).min(r.range(2, 4));
+                    for (k, p) in free.iter().enumerate() {
+                        i2.parts[*p] = if k < m { vec![(c, 0)] } else if k < m + i2.courses[d].max - 2 && r.chance(1, 2) { vec![(d, 0)] } else { Vec::new() };
+                    }
+                    let sz = m - r.range(1, 2.min(m));
+                    i2.courses[c].min = i2.courses[c].min.min(sz);
+                    i2.courses[d].min = 0;
+                    i2.style.push_str("+onlyc");
+                    let nd = VNode { cancelled: vec![], enforced: vec![], shrinked: vec![(c, sz)] };
+                    let o = run_impl(&i2, &nd);
+                    *hist.entry(String::from("directed_exclusive_choosers_of_a_shrunk_course")).or_insert(0) += 1;
+                    cases.push((i2, nd, o));
+                }
+            }
+            // a directed node: the most popular course shrunk (as the room stage does) below the number of its choosers, nothing enforced or
+            // cancelled -- the overflow has to be recognised by the wrong-course scan although no course is full by its static maximum
+            if inst.rooms.is_some() && r.chance(1, 2) {
+                let nc = inst.courses.len();
+                let choosers: Vec<usize> = (0..nc).map(|c| inst.parts.iter().filter(|ch| ch.iter().any(|(cc, _)| *cc == c)).count()).collect();
+                if let Some(c) = (0..nc).max_by_key(|c| choosers[*c]) {
+                    if choosers[c] >= 2 && inst.courses[c].max >= 1 {
+                        let hi = (choosers[c] - 1).min(inst.courses[c].max);
+                        let lo = inst.courses[c].min.min(hi);
+                        let sz = r.range(lo, hi);
+                        let nd = VNode { cancelled: vec![], enforced: vec![], shrinked: vec![(c, sz)] };
+                        let o = run_impl(&inst, &nd);
+                        *hist.entry(String::from("directed_shrink_overflow_nodes")).or_insert(0) += 1;
+                        cases.push((inst.clone(), nd, o));
+                    }
+                }
             }
         }
     }
